@@ -282,4 +282,7 @@ SUBS = [
     Sub("blocks", run_block, strategy=blocks_strategy, budget=(600, 20000), shards=(4, 16),
         rule="blocks of the four run-length types with 1..5 (12) tracks; run tables parsed from the block bytes; block decode under two poisons"),
 ]
+SUBS.append(Sub("long-tracks", run_block, strategy=specs.long_block_case, budget=(16, 400), shards=(8, 16),
+                rule="blocks with 1-2 tracks of 257 .. 131079 frames; gaps that start or end exactly at 256 / 1024 / 4096 / 8192 / 16384 / 65536 / 131072, "
+                     "every second..fifth frame missing (thousands of runs), sparse gaps; all input dtypes / byte orders / layouts"))
 TIME_BUDGET = {"quick": 120, "thorough": 1500}
